@@ -16,6 +16,7 @@ Edges == { <<"geodetic2ecef", "GEO", "ECEF">>, <<"ecef2geodetic", "ECEF", "GEO">
            <<"enu2aer", "ENU", "AER">>, <<"aer2enu", "AER", "ENU">>, <<"enu2aer[rad]", "ENU", "AER">>, <<"aer2enu[rad]", "AER", "ENU">>,
            <<"enu2dca", "ENU", "DCA">>, <<"dca2enu", "DCA", "ENU">>, <<"enu2dca[rad]", "ENU", "DCA">>, <<"dca2enu[rad]", "DCA", "ENU">>,
            <<"enu2ned", "ENU", "NED">>, <<"ned2enu", "NED", "ENU">>,
+           <<"enu2ned[N-by-3]", "ENU", "NED">>, <<"ned2enu[N-by-3]", "NED", "ENU">>,     \* the same functions given several points at once
            <<"enu2uvw", "ENU", "UVW">>, <<"uvw+origin", "UVW", "ECEF">> }
 (* degree and radian variants of a pair must not be mixed inside one AER / DCA excursion *)
 Unit(e) == IF e[1] \in {"enu2aer[rad]", "aer2enu[rad]", "enu2dca[rad]", "dca2enu[rad]"} THEN "rad" ELSE "deg"
